@@ -44,7 +44,12 @@ class _P(Policy):
     def inline(self, fn, args, interp, path):
         b = interp.callee_body(fn)
         root = path.frames[0].body
-        return b is not None and b.get("kind") == "AssocFn" and b.get("impl_self_ty") and b.get("impl_self_ty") == root.get("impl_self_ty") \
+        if b is None:
+            return False
+        # "apply the flat operator" = its unary composition applied to its binary operator: a small method of the operator type
+        if b.get("kind") == "AssocFn" and "FlatOp<" in (b.get("impl_self_ty") or "") and b.get("name") == "apply" and len(b["blocks"]) <= 12:
+            return True
+        return b.get("kind") == "AssocFn" and b.get("impl_self_ty") and b.get("impl_self_ty") == root.get("impl_self_ty") \
             and not str(b.get("vis", "")).startswith("Public") and b.get("name") != root.get("name")
 
 
